@@ -97,6 +97,24 @@ def wl_offset(seed):
                       ('evaluate', 'Data Sheet!E1', {}), ('evaluate', 'Data Sheet!C1', {})]}
 
 
+def wl_lookup(seed):
+    """linear scans (exact and descending MATCH, VLOOKUP with FALSE) for keys that are there and keys that are not:
+    what a scan has found so far belongs to that call alone"""
+    k = seed % 5
+    cells = {}
+    for i in range(1, 13):
+        cells[f'A{i}'] = f'k{(i * 7 + k) % 12:02d}'
+        cells[f'B{i}'] = i * 10 + k
+        cells[f'C{i}'] = 130 - i * 10
+    cells.update({'E1': '=MATCH("zzz",A1:A12,0)', 'E2': f'=MATCH("k{(3 + k) % 12:02d}",A1:A12,0)',
+                  'E3': '=VLOOKUP("nope",A1:B12,2,FALSE)', 'E4': f'=VLOOKUP("k{(8 + k) % 12:02d}",A1:B12,2,FALSE)',
+                  'E5': '=MATCH(35,C1:C12,-1)', 'E6': '=MATCH(1000,C1:C12,-1)',
+                  'E7': '=IFERROR(E1,0)+E2+IFERROR(E3,0)+E4+E5+IFERROR(E6,0)'})
+    spec = {'sheets': [['Sheet1', cells]], 'names': {}, 'arrays': [], 'calc': None}
+    return {'name': 'lookup', 'spec': spec,
+            'calls': [('evaluate', f'Sheet1!E{i}', {}) for i in (1, 2, 3, 4, 5, 6, 7)]}
+
+
 def wl_book(book, calls):
     """a workbook shipped with the repository (formulas only: everything is computed)"""
     return {'name': f'book({book})', 'book': book, 'calls': calls}
@@ -110,6 +128,7 @@ def workloads(seed):
                                       ('evaluate', 'ArrayForm!H30', {})]),
             wl_book('circular', [('evaluate', 'Sheet1!B3', {}), ('set_value', 'Sheet1!B3', {'value': k}),
                                  ('evaluate', 'Sheet1!B1', {}), ('evaluate', 'Sheet1!B8', {})]),
+            wl_lookup(seed),
             wl_offset(seed)]
 
 
@@ -132,6 +151,12 @@ def run_workload(wl, comp=None):
 
 # --------------------------------------------------------------------------- scheduler
 
+def interpreter_settings():
+    """settings of the whole interpreter that an evaluation on another thread lives with"""
+    return {'recursion limit': sys.getrecursionlimit(), 'switch interval': sys.getswitchinterval(),
+            'working directory': os.getcwd()}
+
+
 class Sched:
     def __init__(self, plan, points):
         self.cv = threading.Condition()
@@ -146,6 +171,8 @@ class Sched:
         self.parked_mid = set()
         self.error = None
         self.armed = set()
+        self.baseline = interpreter_settings()
+        self.changed = None
 
     def _advance(self):
         self.idx += 1
@@ -191,6 +218,13 @@ class Sched:
             self.depth[me] -= 1
         with self.cv:
             self.trace.append((me, event, cell))
+            if self.changed is None:
+                now = interpreter_settings()
+                if now != self.baseline:
+                    # seen from inside an evaluation: some evaluation (this one or the parked one) has changed
+                    # what every thread of the process works with
+                    self.changed = (me, event, cell, {k: (self.baseline[k], v) for k, v in now.items()
+                                                      if v != self.baseline[k]})
             if event not in self.points:
                 return
             if self.current != me:       # cannot happen under the baton; do not deadlock if it does
@@ -332,6 +366,14 @@ def one_schedule(ctx, ia, ib, seed, plan, points, warm, refs):
         ctx.count('b_ran_to_completion_inside_a')
     sig = h64(repr(sched.trace))
     ctx.case(('sched', ia, ib, sig), nontrivial=bool(sched.parked_mid))
+    ctx.count('interpreter_settings_samples', len(sched.trace))
+    if sched.changed:
+        me, event, cell, diff = sched.changed
+        ctx.violation('interpreter-wide-setting-changed-inside-an-evaluation/' + '+'.join(sorted(diff)),
+                      f'at {event} of {cell} on thread {me} the {", ".join(f"{k} is {v[1]!r} (was {v[0]!r})" for k, v in diff.items())}'
+                      f': an evaluation changes a setting that every other thread of the process runs under '
+                      f'(plan {plan})', case)
+        return sig
     ctx.count(f'pair:{wa["name"].split("(")[0]}+{wb_["name"].split("(")[0]}')
     for name, idx in (('A', ia), ('B', ib)):
         rkey = 'B-offset' if (name == 'B' and ib == len(ws) - 1) else idx
@@ -519,7 +561,8 @@ def fresh_ops(ctx):
 def stress(ctx, rounds):
     rng = ctx.rng
     mon = getattr(sys, 'monitoring', None)
-    files = ('excelutil.py', 'excelcompiler.py', 'excelformula.py')
+    files = ('excelutil.py', 'excelcompiler.py', 'excelformula.py', 'excellib.py', os.path.join('lib', 'lookup.py'),
+             os.path.join('lib', 'stats.py'), os.path.join('lib', 'text.py'), os.path.join('lib', 'logical.py'))
     tool = None
     injected = {'n': 0}
     if mon is not None:
@@ -593,14 +636,36 @@ def stress(ctx, rounds):
         ctx.count('stress_yields_injected', injected['n'])
 
 
+def settings_left_as_found(ctx, start, after):
+    now = interpreter_settings()
+    ctx.count('interpreter_settings_checks_at_quiescence')
+    diff = {k: (start[k], v) for k, v in now.items() if v != start[k]}
+    if diff:
+        ctx.violation('interpreter-wide-setting-left-changed/' + '+'.join(sorted(diff)),
+                      f'after {after} the ' + ', '.join(f'{k} is {v[1]!r} (was {v[0]!r})' for k, v in diff.items()) +
+                      ': evaluations changed a setting of the whole interpreter and did not put it back',
+                      {'kind': 'settings', 'after': after})
+        return False
+    return True
+
+
 def run(ctx):
     install()
+    start = interpreter_settings()
     fresh_ops(ctx)
-    stress(ctx, 3 if ctx.quick else 40)
+    if not settings_left_as_found(ctx, start, 'the first calls on fresh threads'):
+        return
+    stress(ctx, 8 if ctx.quick else 60)
+    if not settings_left_as_found(ctx, start, 'concurrent evaluations on several threads'):
+        return
     schedules(ctx)
+    settings_left_as_found(ctx, start, 'the scheduled interleavings')
 
 
 def replay(ctx, case):
+    if case.get('kind') == 'settings':
+        run(ctx)
+        return
     install()
     if case['kind'] == 'schedule':
         refs = references(case['seed'])
